@@ -474,6 +474,11 @@ func c05r5(w *World, rr *RuleRun) {
 	// the counters walk the table: each calls forNodes with a closure that increments on every visited node
 	for _, f := range []*ssa.Function{numNodes, numGood, w.P.Func("(*Server).notBadNodes")} {
 		sites := w.CallsIn(f, forNodes, false)
+		if len(sites) == 0 && f == numNodes && w.sumsBucketLens(f, 0) {
+			// the plain count may equally be the sum of every bucket's Len()
+			rr.Oblige(shortFuncName(f), "walks every entry through table.forNodes", w.P.Pos(f.Pos()), true, "sums Len() over every bucket")
+			continue
+		}
 		rr.Oblige(shortFuncName(f), "walks every entry through table.forNodes", w.P.Pos(f.Pos()), len(sites) == 1, fmt.Sprintf("%d forNodes calls", len(sites)))
 		// the callback never asks to stop: all its returns are the constant true
 		for _, site := range sites {
@@ -810,4 +815,60 @@ func c05r6(w *World, rr *RuleRun) {
 	if nEq == 0 {
 		rr.Oblige(shortFuncName(a.getNode), "the duplicate test compares addresses by the projection that keys the address index", w.P.Pos(a.getNode.Pos()), false, "no address comparison found in bucket.GetNode")
 	}
+}
+
+// sumsBucketLens: f returns the sum of (*bucket).Len() over a range covering every bucket of the
+// table (directly, or by returning the result of a module function that does).
+func (w *World) sumsBucketLens(f *ssa.Function, depth int) bool {
+	a := w.tableAnchors()
+	if depth > 2 || len(f.Blocks) == 0 {
+		return false
+	}
+	al, _ := arrayLen(a.buckets.Type())
+	covers, adds := false, false
+	eachInstr([]*ssa.Function{f}, func(_ *ssa.Function, ins ssa.Instruction) {
+		if ia, ok := ins.(*ssa.IndexAddr); ok && fieldOfAddr(ia.X) == a.buckets {
+			if ln, isRange := rangeIndexOver(ia.Index); isRange && ln == al {
+				covers = true
+			}
+		}
+		if bo, ok := ins.(*ssa.BinOp); ok && bo.Op == token.ADD {
+			for _, op := range []ssa.Value{bo.X, bo.Y} {
+				if c, ok := op.(*ssa.Call); ok {
+					if sc := c.Common().StaticCallee(); sc != nil && sc.Name() == "Len" && recvNamedFn(sc) == "bucket" {
+						adds = true
+					}
+				}
+			}
+		}
+	})
+	if covers && adds {
+		return true
+	}
+	// delegation: every return is the result of one module callee that qualifies
+	ok := false
+	eachInstr([]*ssa.Function{f}, func(_ *ssa.Function, ins ssa.Instruction) {
+		if r, isRet := ins.(*ssa.Return); isRet && len(r.Results) == 1 {
+			if c, isCall := r.Results[0].(*ssa.Call); isCall {
+				if g := c.Common().StaticCallee(); g != nil && w.P.IsLib(g) && w.sumsBucketLens(g, depth+1) {
+					ok = true
+				}
+			}
+		}
+	})
+	return ok
+}
+
+func recvNamedFn(f *ssa.Function) string {
+	if f.Signature.Recv() == nil {
+		return ""
+	}
+	t := f.Signature.Recv().Type()
+	if pt, ok := t.(*types.Pointer); ok {
+		t = pt.Elem()
+	}
+	if n, ok := types.Unalias(t).(*types.Named); ok {
+		return n.Obj().Name()
+	}
+	return ""
 }
